@@ -16,6 +16,8 @@
 (*                            sent message that has exactly these n bytes (message     *)
 (*                            contents depend on id and position; only very short      *)
 (*                            messages coincide)                                       *)
+(*                            (a dlv after a rerr "stop" has no explanation: nothing is  *)
+(*                            delivered once the connection has stopped)               *)
 (*   rerr k                   the receiver's onError: "stop" (it stopped the connection *)
 (*                            with an error of its own: capacity exceeded, unknown     *)
 (*                            channel; the text is not looked at), "eof" (the sender   *)
@@ -68,12 +70,12 @@ PktEv == /\ Ev("pkt") /\ KnownCh(Trace[l].ch)
          /\ LET e == Trace[l]  c == ChanIdx(e.ch) IN
             \E x \in (IF EmptyLoss THEN Losses(m, Ch \ {c}) ELSE {m}) :
                /\ CanPacket(x, c, e.eof, e.n)
-               /\ m' = SendPacketGen(x, c, e.eof, e.n)
+               /\ m' = FlushOp(SendPacketGen(x, c, e.eof, e.n))     \* how packets are batched is not visible here
          /\ l' = l + 1
 
 \* the receiver reads packets until one of them delivers a message or stops the connection
 RECURSIVE RecvUntil(_)
-RecvUntil(x) == IF x.wire = <<>> THEN [st |-> x, res |-> "empty"]
+RecvUntil(x) == IF ~CanRecv(x) THEN [st |-> x, res |-> "empty"]
                 ELSE LET r == RecvPacketOp(x) IN IF r.res = "" THEN RecvUntil(r.st) ELSE r
 
 DlvEv == /\ Ev("dlv") /\ m.rstop = "" /\ KnownCh(Trace[l].ch)
@@ -86,16 +88,17 @@ DlvEv == /\ Ev("dlv") /\ m.rstop = "" /\ KnownCh(Trace[l].ch)
 
 RerrEv == /\ Ev("rerr") /\ m.rstop = ""
           /\ LET e == Trace[l]  r == RecvUntil(m) IN
-             \/ e.k = "stop" /\ r.res \in {"cap", "chan"} /\ m' = r.st
+             \/ e.k = "stop" /\ r.res \in {"cap", "chan", "err"} /\ m' = r.st
              \* FlushStop + close: nothing accepted by TrySend may be left in the sender, on the wire or half received
-             \/ /\ e.k = "eof" /\ m.wire = <<>> /\ \A c \in Ch : m.rcv[c] = <<>>
+             \/ /\ e.k = "eof" /\ WireEmpty(m) /\ \A c \in Ch : m.rcv[c] = <<>>
                 /\ \E x \in (IF EmptyLoss THEN Losses(m, Ch) ELSE {m}) : ~AnyPending(x) /\ m' = [x EXCEPT !.rstop = "eof"]
           /\ l' = l + 1
 
 Next == Reset \/ SendEv \/ PktEv \/ DlvEv \/ RerrEv
 Spec == Init /\ [][Next]_vars
 
-Inv == /\ PerChannelFIFOExactlyOnce(m)
+Inv == /\ NoDeliveryAfterError(m) /\ DeliveredIsSent(m)
+       /\ PerChannelFIFOExactlyOnce(m)
        /\ NoCrossChannelMixing(m)
        /\ OversizeRefused(m)
        /\ StopsOnlyForOversize(m)
